@@ -33,6 +33,11 @@ TripSlices ==
                              \cup {[BaseTrip EXCEPT !.stus = <<BaseStu, [BaseStu EXCEPT !.arr = None, !.dep = d]>>] : d \in Evs}
       [] Slice = "shift"  -> {[BaseTrip EXCEPT !.stus = <<[BaseStu EXCEPT !.stop = a, !.track = b]>>] : a \in OptOf(Strs), b \in OptOf(Strs)}
                              \cup {[BaseTrip EXCEPT !.route = a, !.stus = <<[BaseStu EXCEPT !.seq = None, !.stop = b]>>] : a \in Strs, b \in OptOf(SmallStrs)}
+      [] Slice = "long"   -> LET N(seq, a, d) == [seq |-> Some(seq), stop |-> None, track |-> None, sr |-> 0,
+                                                       arr |-> Some([time |-> Some(a), delay |-> Some(0), unc |-> Some(1)]),
+                                                       dep |-> Some([time |-> Some(d), delay |-> Some(1), unc |-> Some(0)])]
+                             IN {[BaseTrip EXCEPT !.stus = <<N(1, a, 5), N(2, 7, b), N(3, c, 9)>>] : a \in {5, 261}, b \in {5, 261, 517, 65541}, c \in {5, 261, 16777221}}
+                                \cup {[BaseTrip EXCEPT !.stus = <<N(1, 5, 5), N(2, 7, b), N(3, 8, c), N(4, 9, d)>>] : b \in {5, 261}, c \in {5, 261}, d \in {5, 261}}
       [] Slice = "stu2"   -> {[BaseTrip EXCEPT !.stus = <<BaseStu, a, b>>] : a \in {x \in Stus : x.sr = 0 /\ x.arr = None}, b \in {x \in Stus : x.seq = None /\ x.track = None}}
       [] Slice = "hdr2"   -> {[BaseTrip EXCEPT !.id = a, !.route = b, !.dir = d, !.hasSD = hd, !.sd = IF hd THEN 7 ELSE ZeroTime, !.hasST = ht, !.st = IF ht THEN st ELSE 0,
                                                !.stus = IF n = 0 THEN <<>> ELSE <<BaseStu>>] :
